@@ -130,6 +130,7 @@ func netPath(r *lib.Run, idx int) {
 		storedBefore bool
 	}
 	src := w.orc.source()
+	w.orc.slow = map[[32]byte]time.Duration{w.altSame: 25 * time.Millisecond}
 	var items []item
 	add := func(class string, k, c []byte) {
 		ref := refValidate(k, c, src)
@@ -314,7 +315,18 @@ func netPath(r *lib.Run, idx int) {
 		}
 		if len(freshGood) < len(freshBad) && !get(encKey(h.key)) {
 			usedKey[string(encKey(h.key))] = true
-			freshGood = append(freshGood, item{class: "honest", key: encKey(h.key), content: encContent(h.typ, h.content), refAccept: true})
+			gc := encContent(h.typ, h.content)
+			// the valid companions name another header with the same state root, whose lookup is the slow one: whatever
+			// order or concurrency the network validates a batch in, the check of a valid item is the last to finish
+			if m := w.mutate(rng, h, "block-hash-other-header-same-root"); m != nil {
+				if mk, mc := m.bytes(); bytes.Equal(mk, encKey(h.key)) {
+					if ref := refValidate(mk, mc, src); !ref.sszBad && ref.accept {
+						gc = mc
+						r.Count("netpath_valid_batch_companions_with_the_slow_header", 1)
+					}
+				}
+			}
+			freshGood = append(freshGood, item{class: "honest", key: encKey(h.key), content: gc, refAccept: true})
 		}
 		if len(freshBad) >= 6 && len(freshGood) >= 6 {
 			break
